@@ -345,6 +345,23 @@ fn extra_builders(tier: Tier) -> Vec<(String, DetBuilder)> {
         let p: Array1<usize> = model.predict(&q);
         Ok(vec![("predict".into(), format!("{:?}", p.to_vec()))])
     })));
+    // a large tree fit on columns that tie exactly (a duplicated column, a monotone transform of
+    // another): whichever feature wins a tie, it has to be the same one on every run
+    v.push(("tree-large-tied-columns".into(), Box::new(move || {
+        let n = 4400usize;
+        let base = big_blobs(23, n, 2);
+        let x = Array2::from_shape_fn((n, 4), |(i, j)| match j {
+            0 => base[[i, 0]],
+            1 => base[[i, 1]],
+            2 => base[[i, 0]],                 // exact duplicate of column 0
+            _ => 2.0 * base[[i, 1]] + 1.0,     // monotone image of column 1: identical partitions
+        });
+        let y = Array1::from_shape_fn(n, |i| ((base[[i, 0]] > 0.0) as usize) + 2 * ((base[[i, 1]] > 0.5) as usize));
+        let m = linfa_trees::DecisionTree::params().max_depth(Some(6)).fit(&Dataset::new(x, y)).map_err(es)?;
+        let nodes: Vec<String> = m.iter_nodes().map(|nd| { let (f, v, _) = nd.split(); format!("{}:{}:{}", nd.depth(), f, fb(v)) }).collect();
+        let p: Array1<usize> = m.predict(&zoo::probe(3, 40, 4, false));
+        Ok(vec![("nodes".into(), nodes.join(";")), ("predict".into(), format!("{:?}", p.to_vec())), ("importance".into(), fbs(m.feature_importance().iter()))])
+    })));
     v.push(("ftrl-default-seed".into(), Box::new(|| {
         let d = make_data(17, 200, 4, false);
         let ds = Dataset::new(d.x.clone(), d.ybin.clone());
@@ -529,6 +546,71 @@ pub fn run(ctx: &Ctx) {
         c.note("observables", json!(href.keys().collect::<Vec<_>>()));
         c.note("runs_compared", json!(runs + 1));
         held(runs >= 2, name.clone())
+    });
+    // (a') the same parameters held by an object with a history (checked / fitted / reconfigured
+    // before) and by a freshly built one: "same data, parameters and seed" does not depend on what the
+    // parameter object did earlier
+    type Pair = Box<dyn Fn() -> Result<(Behaviour, Behaviour), String> + Send + Sync>;
+    let hist: Vec<(&str, Pair)> = vec![
+        ("count-vectorizer-tokenizer-changed-after-a-fit", Box::new(|| {
+            use linfa_preprocessing::{CountVectorizer, Tokenizer};
+            let corpus = ndarray::array!["one-two three".to_string(), "two-two four one".to_string(), "four-five".to_string()];
+            let dump = |p: &linfa_preprocessing::CountVectorizerParams| -> Result<Behaviour, String> {
+                let f = p.fit(&corpus).map_err(es)?;
+                let mut voc = f.vocabulary().clone();
+                voc.sort();
+                Ok(vec![("vocabulary".into(), format!("{voc:?}"))])
+            };
+            let fresh = CountVectorizer::params().tokenizer(Tokenizer::Regex(r"[a-z]+".to_string()));
+            let used = CountVectorizer::params().tokenizer(Tokenizer::Regex(r"[a-z\-]+".to_string()));
+            let _ = used.fit(&corpus);
+            let used = used.tokenizer(Tokenizer::Regex(r"[a-z]+".to_string()));
+            Ok((dump(&fresh)?, dump(&used)?))
+        })),
+        ("kmeans-params-fitted-twice", Box::new(|| {
+            use linfa_clustering::KMeans;
+            let ds = DatasetBase::from(big_blobs(31, 500, 2));
+            let p = KMeans::params_with_rng(3, rand_xoshiro::Xoshiro256Plus::seed_from_u64(4)).max_n_iterations(8);
+            let a = p.fit(&ds).map_err(es)?;
+            let b = p.fit(&ds).map_err(es)?;
+            let d = |m: &KMeans<f64, linfa_nn::distance::L2Dist>| vec![("centroids".to_string(), arr2(m.centroids())), ("inertia".to_string(), fb(m.inertia()))];
+            Ok((d(&a), d(&b)))
+        })),
+        ("gmm-params-fitted-twice", Box::new(|| {
+            use linfa_clustering::GaussianMixtureModel;
+            let ds = DatasetBase::from(big_blobs(32, 300, 2));
+            let p = GaussianMixtureModel::params_with_rng(2, rand_xoshiro::Xoshiro256Plus::seed_from_u64(4)).max_n_iterations(10);
+            let a = p.fit(&ds).map_err(es)?;
+            let b = p.fit(&ds).map_err(es)?;
+            let d = |m: &GaussianMixtureModel<f64>| vec![("means".to_string(), arr2(m.means())), ("weights".to_string(), fbs(m.weights().iter()))];
+            Ok((d(&a), d(&b)))
+        })),
+        ("tree-params-fitted-on-other-data-first", Box::new(|| {
+            let d1 = make_data(33, 80, 3, false);
+            let d2 = make_data(34, 120, 3, false);
+            let p = linfa_trees::DecisionTree::params().max_depth(Some(4));
+            let _ = p.fit(&Dataset::new(d1.x.clone(), d1.ycls.clone())).map_err(es)?;
+            let b = p.fit(&Dataset::new(d2.x.clone(), d2.ycls.clone())).map_err(es)?;
+            let a = linfa_trees::DecisionTree::params().max_depth(Some(4)).fit(&Dataset::new(d2.x.clone(), d2.ycls.clone())).map_err(es)?;
+            let q = zoo::probe(5, 30, 3, false);
+            let d = |m: &linfa_trees::DecisionTree<f64, usize>| { let y: Array1<usize> = m.predict(&q); vec![("predict".to_string(), format!("{:?}", y.to_vec())), ("leaves".to_string(), m.num_leaves().to_string())] };
+            Ok((d(&a), d(&b)))
+        })),
+    ];
+    let hist = &hist;
+    ctx.family_seq("parameter-object-history", hist.len() as u64, |c| {
+        let (name, f) = &hist[c.idx as usize];
+        c.note("case", json!(name));
+        match guarded(|| f()) {
+            Ok(Ok((fresh, used))) => {
+                ensure!(hashes(&fresh) == hashes(&used), "C20/history/result-depends-on-what-the-parameter-object-did-before",
+                    {"case": name, "fresh": fresh.iter().map(|(k, v)| (k.clone(), v.chars().take(300).collect::<String>())).collect::<Vec<_>>(),
+                     "with_history": used.iter().map(|(k, v)| (k.clone(), v.chars().take(300).collect::<String>())).collect::<Vec<_>>()});
+                held(true, name.to_string())
+            }
+            Ok(Err(e)) => inconclusive(format!("{name}: {e}")),
+            Err(p) => inconclusive(format!("{name}: panicked: {p}")),
+        }
     });
     // (b) cross-process
     let nproc = tier.pick(6usize, 40usize);
